@@ -4,6 +4,6 @@ P=$1; shift; CHECKS=${@:-$P}
 for d in /tmp/mutants/$P/mutant*/; do
   for c in $CHECKS; do
     bash /verif/tools/mutant_lab.sh try $c $d/patch.diff 2>&1 | tail -1 | sed "s#^RESULT#RESULT[$P/$(basename $d)]#"
-    cp /tmp/mlab_$c.out $d/lab_$c.out 2>/dev/null
+    cp /tmp/mlab${LAB:-}_$c.out $d/lab_$c.out 2>/dev/null
   done
 done
